@@ -14,3 +14,4 @@ impl<T: ?Sized> Acyclic for T {}
 pub mod err;
 pub mod num;
 pub mod symstr;
+pub mod fixed;
